@@ -34,10 +34,14 @@ struct MV {
 using T1 = std::tuple<MV>;
 using T2 = std::tuple<MV, MV>;
 using T3 = std::tuple<MV, MV, MV>;
+using T4 = std::tuple<MV, MV, MV, MV>;
+using TV = std::vector<MV>;
 
 long tupleVal(const T1& t) { return std::get<0>(t).v; }
 long tupleVal(const T2& t) { return std::get<0>(t).v + 100L * std::get<1>(t).v; }
 long tupleVal(const T3& t) { return std::get<0>(t).v + 100L * std::get<1>(t).v + 10000L * std::get<2>(t).v; }
+long tupleVal(const T4& t) { return std::get<0>(t).v + 100L * std::get<1>(t).v + 10000L * std::get<2>(t).v + 1000000L * std::get<3>(t).v; }
+long tupleVal(const TV& t) { long s = 0, f = 1; for (auto& x : t) { s += f * x.v; f *= 100; } return s; }
 
 struct Slot {
     // exactly one of these is set
@@ -46,11 +50,13 @@ struct Slot {
     std::unique_ptr<Async::Promise<T1>> p1;
     std::unique_ptr<Async::Promise<T2>> p2;
     std::unique_ptr<Async::Promise<T3>> p3;
+    std::unique_ptr<Async::Promise<T4>> p4;
+    std::unique_ptr<Async::Promise<TV>> pvec;   // iterator-range whenAll
     std::unique_ptr<Async::Promise<Async::Any>> pa;
     std::shared_ptr<Async::Deferred<MV>> def;   // resolver/rejection kept by the program
     bool movedOut = false;
     Async::PromiseBase* base() {
-        if (pi) return pi.get(); if (pv) return pv.get(); if (p1) return p1.get(); if (p2) return p2.get(); if (p3) return p3.get(); if (pa) return pa.get();
+        if (pi) return pi.get(); if (pv) return pv.get(); if (p1) return p1.get(); if (p2) return p2.get(); if (p3) return p3.get(); if (p4) return p4.get(); if (pvec) return pvec.get(); if (pa) return pa.get();
         return nullptr;
     }
 };
@@ -64,6 +70,8 @@ struct Interp {
     long argOf(const T1& t) { return tupleVal(t); }
     long argOf(const T2& t) { return tupleVal(t); }
     long argOf(const T3& t) { return tupleVal(t); }
+    long argOf(const T4& t) { return tupleVal(t); }
+    long argOf(const TV& t) { return tupleVal(t); }
     long argOf(const Async::Any& a) { return a.is<MV>() ? a.cast<MV>().v : 0; }
 
     // attach a continuation of the requested kind to a promise with value type V; returns the derived slot
@@ -160,6 +168,8 @@ void registerAsync(std::map<std::string, Op>& ops)
                     else if (spr.p1) d = in.attach<T1>(*spr.p1, cb, kind, karg, rej, rejcb);
                     else if (spr.p2) d = in.attach<T2>(*spr.p2, cb, kind, karg, rej, rejcb);
                     else if (spr.p3) d = in.attach<T3>(*spr.p3, cb, kind, karg, rej, rejcb);
+                    else if (spr.p4) d = in.attach<T4>(*spr.p4, cb, kind, karg, rej, rejcb);
+                    else if (spr.pvec) d = in.attach<TV>(*spr.pvec, cb, kind, karg, rej, rejcb);
                     else if (spr.pa) d = in.attach<Async::Any>(*spr.pa, cb, kind, karg, rej, rejcb);
                     else return "bad-prog";
                     (void)sp;
@@ -173,21 +183,30 @@ void registerAsync(std::map<std::string, Op>& ops)
                     long p = atol(a[1].c_str());
                     if (p < 0 || static_cast<size_t>(p) >= in.slots.size() || !in.slots[p].def) return "bad-prog";
                     in.slots[p].def->reject(Ex { atoi(a[2].c_str()) }); out("ok");
-                } else if (a[0] == "all" || a[0] == "any") {
+                } else if (a[0] == "all" || a[0] == "any" || a[0] == "allr") {
                     std::vector<long> ps; { std::stringstream ss(a[1]); std::string t; while (std::getline(ss, t, ',')) ps.push_back(atol(t.c_str())); }
                     for (long p : ps) if (!usable(in, p) || !in.slots[p].pi) return "bad-prog";
                     in.slots.emplace_back(); size_t wi = in.slots.size() - 1;
                     Slot s;
                     auto& S = in.slots;
-                    if (a[0] == "all") {
+                    if (a[0] == "allr") {
+                        // whenAll over an iterator range: the promises are lent to a vector for the call and handed back
+                        std::vector<Async::Promise<MV>> v;
+                        for (long p : ps) v.push_back(std::move(*S[p].pi));
+                        try { s.pvec = std::make_unique<Async::Promise<TV>>(Async::whenAll(v.begin(), v.end())); }
+                        catch (...) { for (size_t k = 0; k < ps.size(); ++k) *S[ps[k]].pi = std::move(v[k]); throw; }
+                        for (size_t k = 0; k < ps.size(); ++k) *S[ps[k]].pi = std::move(v[k]);
+                    } else if (a[0] == "all") {
                         if (ps.size() == 1) s.p1 = std::make_unique<Async::Promise<T1>>(Async::whenAll(*S[ps[0]].pi));
                         else if (ps.size() == 2) s.p2 = std::make_unique<Async::Promise<T2>>(Async::whenAll(*S[ps[0]].pi, *S[ps[1]].pi));
                         else if (ps.size() == 3) s.p3 = std::make_unique<Async::Promise<T3>>(Async::whenAll(*S[ps[0]].pi, *S[ps[1]].pi, *S[ps[2]].pi));
+                        else if (ps.size() == 4) s.p4 = std::make_unique<Async::Promise<T4>>(Async::whenAll(*S[ps[0]].pi, *S[ps[1]].pi, *S[ps[2]].pi, *S[ps[3]].pi));
                         else return "bad-prog";
                     } else {
                         if (ps.size() == 1) s.pa = std::make_unique<Async::Promise<Async::Any>>(Async::whenAny(*S[ps[0]].pi));
                         else if (ps.size() == 2) s.pa = std::make_unique<Async::Promise<Async::Any>>(Async::whenAny(*S[ps[0]].pi, *S[ps[1]].pi));
                         else if (ps.size() == 3) s.pa = std::make_unique<Async::Promise<Async::Any>>(Async::whenAny(*S[ps[0]].pi, *S[ps[1]].pi, *S[ps[2]].pi));
+                        else if (ps.size() == 4) s.pa = std::make_unique<Async::Promise<Async::Any>>(Async::whenAny(*S[ps[0]].pi, *S[ps[1]].pi, *S[ps[2]].pi, *S[ps[3]].pi));
                         else return "bad-prog";
                     }
                     in.slots[wi] = std::move(s);
